@@ -782,7 +782,7 @@ func exportJSON(l *har.Logger) ([]byte, error) {
 }
 
 func genOpts(key string, proxy bool) msgx.GenOpts {
-	return msgx.GenOpts{Key: key, Rich: true, BadForms: true, Zlib: true, Proxy: proxy}
+	return msgx.GenOpts{Key: key, Rich: true, BadForms: true, Zlib: true, BadQuery: true, Proxy: proxy}
 }
 
 func direct(r *vh.Run, c c16Case) {
@@ -793,10 +793,16 @@ func direct(r *vh.Run, c c16Case) {
 		o.NoBig = true // quick tier: the 65 537 B / 1 MiB bodies in a third of the cases only
 	}
 	reqSpec := msgx.GenRequest(rng, o)
+	if c.Idx%61 == 7 {
+		// a fixed share of every run: a few KiB on the wire that decode to 1-3 MiB
+		// (thorough: up to 8 MiB), i.e. far beyond 100:1
+		o.HugeInflate, o.MaxInflate = true, r.Pick(3<<20, 8<<20)
+	}
 	respSpec := msgx.GenResponse(rng, o, reqSpec.Method)
 	reqWire, respWire := reqSpec.Wire(), respSpec.Wire()
 	r.Eval(1)
 	witness := map[string]interface{}{"request": msgx.Excerpt(reqWire, 700), "response": msgx.Excerpt(respWire, 500), "options": c.Opt,
+		"response_wire_bytes": len(respWire), "response_decoded_bytes": len(respSpec.WirePayload()),
 		"request_body_kind": reqSpec.BodyKind, "request_framing": reqSpec.FramingClass(), "response_kind": respSpec.Kind(), "response_coding": respSpec.CodingClass()}
 	inconc := func(why string) {
 		r.SetCase(c)
